@@ -264,6 +264,10 @@ class WebSocket:
             Pre-initialized stream socket.
         """
         self.sock_opt.timeout = options.get("timeout", self.sock_opt.timeout)
+        # an earlier connection of this object ends here: its transport is
+        # released before the new one is opened, whether or not that succeeds
+        self.shutdown()
+        self.connected = False
         # a frame or message an earlier connection of this object left
         # unfinished must not be completed with bytes of the new one
         self.frame_buffer.clear()
